@@ -661,6 +661,21 @@ def translate_gen(repo: Path):
     if len(af) != 1:
         raise T1Unrecognised(cfile, 0, "adapted_fields not found")
     out["dataclass_kw_only_kept"] = "kw_only=attr.kw_only" in _src(af[0])
+    # converters.py structure_attrs_fromtuple: positional for everything, or keyword-only attributes by keyword and init=False left out
+    vfile = "src/cattrs/converters.py"
+    vmod = ast.parse((repo / vfile).read_text())
+    ft = _find_method(_find_class(vmod, "BaseConverter", vfile), "structure_attrs_fromtuple", vfile)
+    body = [_src(x) for x in _strip_doc(ft.body)]
+    fsrc = "\n".join(body)
+    if "for a, value in zip(fields(cl), obj):" not in fsrc:
+        raise T1Unrecognised(vfile, ft.lineno, "structure_attrs_fromtuple: the zip over fields(cl) and the payload")
+    if body[-1] == "return cl(*conv_obj)" and "kw_only" not in fsrc and "a.init" not in fsrc:
+        out["tuple_by_kw"] = False
+    elif (body[-1] == "return cl(*conv_obj, **kw_obj)" and "if not a.init:\n        continue" in fsrc and "if a.kw_only:" in fsrc
+          and "kw_obj[getattr(a, 'alias', a.name)] = converted" in fsrc and fsrc.index("if not a.init:") < fsrc.index("self._structure_attribute(a, value)")):
+        out["tuple_by_kw"] = True
+    else:
+        raise T1Unrecognised(vfile, ft.lineno, "structure_attrs_fromtuple: how the structured values are passed to the class")
     return out
 
 
@@ -691,7 +706,8 @@ def emit_gen(g) -> str:
     return ("(* GENERATED by harness/t1_translate.py from src/cattrs/gen/__init__.py -- do not edit *)\n"
             f"Definition src_recheck : bool := {_coq_bool(g['detailed_rechecks_errors'])}.\n"
             f"Definition src_kw_last : bool := {_coq_bool(g['fast_kw_last'])}.\n"
-            f"Definition src_td_skip_self_rename : bool := {_coq_bool(g['td']['skip_self_rename'])}.\n")
+            f"Definition src_td_skip_self_rename : bool := {_coq_bool(g['td']['skip_self_rename'])}.\n"
+            f"Definition src_tuple_by_kw : bool := {_coq_bool(g['tuple_by_kw'])}.\n")
 
 
 # ------------------------------------------------------- strategies/_unions.py
